@@ -730,3 +730,43 @@ pub fn parse_decimal_text(s: &str, scale: i8) -> Option<i256> {
     }
     Some(if neg { acc.checked_neg()? } else { acc })
 }
+
+// ---------------------------------------------------------------------------------------------
+// deterministic "long value" families: lengths that cross internal staging buffers / block sizes
+// (64-byte hex staging buffer of the JSON reader, 1024-byte CSV record buffers, 8 KiB writer flush
+// thresholds, 64-byte varint length boundary of Avro, view inlining at 12 bytes is in the short alphabets)
+
+pub fn long_lengths(thorough: bool) -> Vec<usize> {
+    let mut v = vec![63, 64, 65, 127, 128, 129, 500, 1023, 1024, 1025, 8191, 8192, 8193];
+    if thorough {
+        v.extend([255, 256, 257, 511, 512, 513, 2047, 2048, 2049, 4095, 4096, 4097, 16383, 16384, 16385]);
+        v.sort();
+    }
+    v
+}
+
+/// largest power-of-two boundary b in 64..=16384 with b + 1 <= len (a 2-byte character starting at
+/// b-1 then still fits); None for len < 65
+pub fn boundary(len: usize) -> Option<usize> {
+    [16384usize, 8192, 4096, 2048, 1024, 512, 256, 128, 64].into_iter().find(|b| b + 1 <= len)
+}
+
+pub fn ascii_ramp(n: usize) -> String {
+    (0..n).map(|i| (b'a' + (i % 26) as u8) as char).collect()
+}
+pub fn bytes_ramp(n: usize) -> Vec<u8> {
+    (0..n).map(|i| i as u8).collect()
+}
+pub fn bytes_ff00(n: usize) -> Vec<u8> {
+    (0..n).map(|i| if i % 2 == 0 { 0xff } else { 0x00 }).collect()
+}
+
+/// `len` bytes of ASCII ramp with `insert` placed so that it starts `back` bytes before the boundary
+/// (so it straddles it); falls back to placing it at the end when the string is too short
+pub fn straddle(len: usize, insert: &str, back: usize) -> String {
+    let il = insert.len();
+    match boundary(len) {
+        Some(b) if b - back + il <= len => format!("{}{}{}", ascii_ramp(b - back), insert, ascii_ramp(len - (b - back) - il)),
+        _ => format!("{}{}", ascii_ramp(len.saturating_sub(il)), insert),
+    }
+}
